@@ -43,6 +43,7 @@ type Obligation struct {
 	Model   string
 	Output  string
 	Cover   string // sat | unsat | unknown | ""
+	Second  string
 	SMTFile string
 }
 
@@ -59,6 +60,7 @@ type VC struct {
 	writes  map[string]bool
 	abstracted []string
 	assumed    map[string]bool
+	regionEval func(src string) (string, error)
 }
 
 func NewVC(fn string) *VC {
@@ -208,6 +210,15 @@ func Select(a, i string) string   { return "(select " + a + " " + i + ")" }
 func Store(a, i, v string) string { return "(store " + a + " " + i + " " + v + ")" }
 func App(f string, args ...string) string {
 	return "(" + f + " " + strings.Join(args, " ") + ")"
+}
+func Add(a, b string) string {
+	if a == "0" {
+		return b
+	}
+	if b == "0" {
+		return a
+	}
+	return "(+ " + a + " " + b + ")"
 }
 func IntLit(n string) string {
 	if strings.HasPrefix(n, "-") {
@@ -373,30 +384,39 @@ func solve(text string, dir string, tag string, timeoutS int, wantModel bool) so
 	}
 	os.WriteFile(file, []byte(body), 0o644)
 	ctx := context.Background()
-	quick := 3
-	if timeoutS < quick {
-		quick = timeoutS
-	}
-	r := runSolver(ctx, solvers[0], file, quick)
-	if r.status != "unknown" {
-		r.out = trimOut(r.out)
-		return withFile(r, file)
-	}
-	// race all three
 	cctx, cancel := context.WithCancel(ctx)
 	defer cancel()
 	ch := make(chan solveResult, len(solvers))
-	for _, sp := range solvers {
-		sp := sp
-		go func() { ch <- runSolver(cctx, sp, file, timeoutS) }()
-	}
+	go func() { ch <- runSolver(cctx, solvers[0], file, timeoutS) }()
+	started := 1
+	timer := time.NewTimer(1500 * time.Millisecond)
+	defer timer.Stop()
 	var last solveResult
-	for range solvers {
-		x := <-ch
-		last = x
-		if x.status != "unknown" {
-			x.out = trimOut(x.out)
-			return withFile(x, file)
+	got := 0
+	for got < len(solvers) {
+		select {
+		case <-timer.C:
+			if started == 1 {
+				for _, sp := range solvers[1:] {
+					sp := sp
+					go func() { ch <- runSolver(cctx, sp, file, timeoutS) }()
+				}
+				started = len(solvers)
+			}
+		case r := <-ch:
+			got++
+			last = r
+			if r.status != "unknown" {
+				r.out = trimOut(r.out)
+				return withFile(r, file)
+			}
+			if started == 1 {
+				for _, sp := range solvers[1:] {
+					sp := sp
+					go func() { ch <- runSolver(cctx, sp, file, timeoutS) }()
+				}
+				started = len(solvers)
+			}
 		}
 	}
 	last.out = trimOut(last.out)
